@@ -838,7 +838,7 @@ def _calls_in_text(text: str, fname: str):
     return [c for c in ast.walk(tree) if isinstance(c, ast.Call) and isinstance(c.func, ast.Name) and c.func.id == fname]
 
 
-@rule("C14.R8", "client.query / client.mutation build the operation type they are named after, and exist only with their builders", min_instances=6)
+@rule("C14.R8", "client.query / client.mutation build the operation type they are named after, and exist only with their builders", min_instances=8)
 def c14_r8(ctx):
     repo = ctx.repo
     gen = repo.func("client_generators.package:PackageGenerator.generate")
@@ -864,6 +864,15 @@ def c14_r8(ctx):
                   f"with only {flag} set the client gets {[norm(m)[:120] for m in made]}: the method `{meth}` must execute OperationType.{member} (a `query` document selecting Mutation fields is invalid)",
                   gen.loc(made[0]) if made else gen.loc(), okmsg=f"client.{meth} -> OperationType.{member}")
         ctx.check(prods == [producer], key(gen, f"{meth} builders"), f"with only {flag} set the generated builder modules are {prods}, expected [{producer}]", gen.loc(), okmsg=f"{producer} runs iff its generator is configured")
+    # the executor (and its helpers) is added exactly when custom operations are enabled, for the configured flavour
+    for enabled in (True, False):
+        outs = Interp(gen, lambda e, en=enabled: (en if norm(strip_pre(e)) == "self.enable_custom_operations" else True if norm(strip_pre(e)).startswith("self.package_path.exists") else
+                                                  False if norm(strip_pre(e)) in ("self.custom_query_generator", "self.custom_mutation_generator") else None),
+                      is_effect=lambda c: dotted(c.func) == "self.client_generator.add_execute_custom_operation_method").run()
+        effs = [[norm(strip_pre(e)) for e in o.effects] for o in outs]
+        want = [["self.client_generator.add_execute_custom_operation_method(async_client=self.async_client)"], ["self.client_generator.add_execute_custom_operation_method(self.async_client)"]] if enabled else [[]]
+        ctx.check(bool(effs) and all(e in want for e in effs), key(gen, f"executor enabled={enabled}"), f"[enable_custom_operations={enabled}] executor added: {effs}; expected "
+                  f"{'add_execute_custom_operation_method(self.async_client) once' if enabled else 'nothing'}", gen.loc(), okmsg=f"enable_custom_operations={enabled}: executor {'added for the configured flavour' if enabled else 'not added'}")
     # the emitted helper passes the type on: OperationType.<operation_type> under the operation_type keyword
     sh = Shaper(repo)
     for nm in ("_create_sync_operation_method", "_create_async_operation_method"):
